@@ -968,6 +968,14 @@ class Fn:
                     outs.append((f'{p["name"]}->{f}', f'{p["name"]}_{f}', ft.w))
                 # the pointer itself may be passed on or compared; it has no numeric value here
                 sig['params'].append(('record', p['name'], [f for f, _ in fields]))
+            elif pt.ptr and pt.esz in (2, 4, 8) and not tu.resolve(q[:-1].strip() if q.strip().endswith('*') else q).endswith('*') \
+                    and tu.resolve(q.strip()[:-1].strip()) in INT_TYPES:
+                # pointer to one integer object (`uint32_t *seedp`): the object is a parameter and a result (`deref_<p>`), as in c2lean.py
+                w = pt.esz * 8
+                params.append((f'{p["name"]}_in', w))
+                env['*' + p['name']] = f'{p["name"]}_in'
+                outs.append(('*' + p['name'], f'deref_{p["name"]}', w))
+                sig['params'].append(('scalar', p['name'], None))
             else:
                 params.append((p['name'], pt.w))
                 env[p['name']] = p['name']
